@@ -223,7 +223,7 @@ NEEDS_NONZERO = {"udiv", "sdiv", "__mod__"}
 
 
 def _opts(w, tier, **kw):
-    o = {"timeout_ms": 20000 if tier == "quick" else 120000, "budget_s": 900 if tier == "quick" else 3000,
+    o = {"timeout_ms": 20000 if tier == "quick" else 120000, "budget_s": 240 if tier == "quick" else 3000,
          "max_paths": 60000, "max_depth": 30000, "gcd_max": (1 << w) - 1, "max_failures": 2}
     o.update(kw)
     return o
@@ -241,6 +241,16 @@ def _call(c, label, f, *args):
         where = next((f"{fr.name}:{fr.lineno}" for fr in reversed(tb) if "strided_interval" in fr.filename or "warren" in fr.filename), "?")
         c.fail(label + "/raises", f"{type(e).__name__}: {e} at {where}", kind="raises")
         return False, None
+
+
+def _rp(fn, **kw):
+    """in-worker native replay of a counter-model (see paths.Ctx.check)"""
+    def rp(failure):
+        wit = failure.get("witness", {})
+        if "a_lb" not in wit or ("x" not in wit and fn == "replay_transfer"):
+            return {"reproduced": False, "text": "witness carries no operands"}
+        return globals()[fn]({"kwargs": kw}, failure)
+    return rp
 
 
 def _result_check(c, label, r, val, w, ns):
@@ -278,7 +288,7 @@ def ob_binary(op, w, tier="quick", iw=None, known=None, replay=None):
         _result_check(c, f"{op}", r, val, w, ns)
         return "ret"
 
-    return explore(body, _opts(w, tier))
+    return explore(body, _opts(w, tier, replay=_rp("replay_transfer", op=op, w=w)))
 
 
 def ob_unary(op, w, tier="quick", iw=None, replay=None):
@@ -296,7 +306,7 @@ def ob_unary(op, w, tier="quick", iw=None, replay=None):
         _result_check(c, f"{op}", r, val, w, ns)
         return "ret"
 
-    return explore(body, _opts(w, tier))
+    return explore(body, _opts(w, tier, replay=_rp("replay_transfer", op=op, w=w)))
 
 
 def ob_compare(op, w, tier="quick", iw=None, replay=None):
@@ -324,7 +334,7 @@ def ob_compare(op, w, tier="quick", iw=None, replay=None):
         c.check(op + "/gamma", ok, f"truth value of member operands not in result {vals}")
         return "ret:" + "".join(sorted(str(v)[0] for v in vals))
 
-    return explore(body, _opts(w, tier))
+    return explore(body, _opts(w, tier, replay=_rp("replay_transfer", op=op, w=w)))
 
 
 KNOWN_PREDS = {}
@@ -379,7 +389,10 @@ def replay_transfer(task, failure):
         b = SI(bits=w, stride=wit["b_stride"], lower_bound=wit["b_lb"], upper_bound=wit["b_ub"])
         y = wit["y"]
         assert y in py_members(b)
-        r = getattr(a, op)(b)
+        try:
+            r = getattr(a, op)(b)
+        except Exception as e:  # noqa
+            return {"reproduced": True, "text": f"SI({wit['a_stride']}[{wit['a_lb']},{wit['a_ub']}]).{op}(SI({wit['b_stride']}[{wit['b_lb']},{wit['b_ub']}])) at {w} bits raised {type(e).__name__}: {e}"}
         ref = PY_REF[op](x, y, w)
         call = f"SI(bits={w},stride={wit['a_stride']},lower_bound={wit['a_lb']},upper_bound={wit['a_ub']}).{op}(SI(bits={w},stride={wit['b_stride']},lower_bound={wit['b_lb']},upper_bound={wit['b_ub']}))"
         ins = f"x={x} y={y}"
